@@ -524,6 +524,8 @@ def pool_inventory(ctx, report, rule, facts, config, crossing_only=False):
         if crossing_only and "ThreadPoolBuilder" in c.path:
             continue
         n += 1
+        if c.name not in POOL_CROSSING and "ThreadPoolBuilder" not in c.path:
+            continue    # asking rayon something (current_num_threads, current_thread_index) moves no work anywhere
         ow = owners(b, frozenset())
         ok = bool(ow) and None not in ow
         if not ok:
